@@ -148,6 +148,14 @@ func cmdRun(args []string) int {
 			fmt.Printf("generated builder harness: %d methods, %d roots\n", nm, nr)
 		}
 	}
+	if strings.HasPrefix(spec.Name, "VerifC41_sweep") {
+		n, err := generatePipelineHarness()
+		if err != nil {
+			fmt.Fprintln(os.Stderr, "generate:", err)
+			return 2
+		}
+		fmt.Printf("generated pipeline sweep: %d methods\n", n)
+	}
 	p, err := loadProgram(args[0], []string{spec.Pkg})
 	if err != nil {
 		fmt.Fprintln(os.Stderr, "load:", err)
@@ -279,13 +287,21 @@ func cmdCheck(args []string) int {
 	var loadErr error
 	progs := map[string]*program{}
 	for _, hs := range specs {
-		if hs.spec.Gen == "builders" && len(extraOverlay) == 0 {
+		if hs.spec.Gen == "builders" && !hasBuilderOverlay() {
 			nm, nr, err := generateBuilderHarness()
 			if err != nil {
 				loadErr = err
 				break
 			}
 			fmt.Printf("generated builder harness: %d methods, %d roots\n", nm, nr)
+		}
+		if hs.spec.Gen == "pipeline" && extraOverlay[genPipelinePath()] == nil {
+			n, err := generatePipelineHarness()
+			if err != nil {
+				loadErr = err
+				break
+			}
+			fmt.Printf("generated pipeline sweep: %d methods\n", n)
 		}
 	}
 	for _, hs := range specs {
